@@ -519,6 +519,10 @@ def run(ctx):
     check_cube_header_pair(ctx, "R25")
     ctx.rule("R26", "POSCAR: the cell and the fractional coordinates written give the same Cartesian positions when read (writer and header reader evaluated; atoms grouped by element)", "fractional coordinates computed with the transposed inverse cell: atoms of a non-orthogonal cell come back displaced")
     check_poscar_pair(ctx, "R26")
+    ctx.rule("R30", "PDB atom records: every per-atom value the writer prints is read back by the record parser, zero included (writer and record parser evaluated)", "an occupancy of exactly 0.0 written as the default 1.00 (`value or default`), a residue number or chain in another column")
+    check_pdb_atom_pair(ctx, "R30")
+    ctx.rule("R31", "SDF and MOL2: atoms, coordinates, every bond with its type (the types only MOL2 names included), charges and atom types written are read back (writer and reader interpreted on a model molecule)", "bond types the writer clamps or renames on one side only: an amide / dummy / not-connected bond comes back as another type")
+    check_molfile_pairs(ctx, "R31")
     ctx.rule("R29", "FCHK field routing: what dump_one hands to each labelled field comes back from load_one under the same attribute (both interpreted with the field I/O helpers stubbed)", "two charge schemes swapped between their labels, masses written without the amu factor, the core charges read from the atomic-number field, a density matrix filed under another key")
     check_fchk_field_routing(ctx, "R29")
     ctx.rule("R14", "formats read by splitting at white space are written with a literal separator between neighbouring fields", "for a large system a counter fills its field and touches its neighbour: the written line has fewer tokens and cannot be read back")
@@ -1131,3 +1135,112 @@ def check_fchk_field_routing(ctx, rid):
         ctx.violate(rid, f"FCHK field routing: {bad} of the model object do(es) not come back as written", do, do.node, construct=f"fchk routing: {bad}")
         return
     ctx.ok(rid, f"fchk: {len(got)} labelled fields written for a model object come back under their own attributes ({', '.join(sorted(expect))}, mo, obasis)", f"{do.module.relpath}:{do.lineno}")
+
+
+def check_pdb_atom_pair(ctx, rid):
+    """pdb.dump_one interpreted on a three-atom model object whose per-atom values all differ and include the values a
+    shortcut gets wrong (occupancy 0.0, B-factor 0.0, residue number 0); every ATOM line it prints is handed to the
+    module's own record parser, which must give the values back."""
+    from ..accessors import AccessorEval, Raised, Rec, TextSink
+    from ..symarr import NotSymbolic
+
+    prog = ctx.prog
+    do = prog.format_op("pdb", "dump_one")
+    rp = prog.funcs.get("iodata.formats.pdb._parse_pdb_atom_line")
+    if rp is None:
+        raise AnalysisError("pdb._parse_pdb_atom_line not found")
+    licls = prog.cls("iodata.utils.LineIterator")
+    iocls = prog.cls("iodata.iodata.IOData")
+    f0 = {n: None for n in iocls.fields}
+    coords = np.array([[-11.125, 22.25, -3.375], [0.5, -0.25, 8.0], [100.0, 0.0, -99.5]])
+    want = dict(attypes=["CA", "N", "O1"], restypes=["GLY", "ALA", "HOH"], resnums=[42, 0, 7], occupancies=[0.75, 0.0, 1.0], bfactors=[12.5, 0.0, 3.25], chainids=["B", "A", "C"])
+    f0.update(title="T", atnums=np.array([6, 7, 8]), atcoords=coords,
+              atffparams={"attypes": np.array(want["attypes"]), "restypes": np.array(want["restypes"]), "resnums": np.array(want["resnums"])},
+              extra={"occupancies": np.array(want["occupancies"]), "bfactors": np.array(want["bfactors"]), "chainids": np.array(want["chainids"])})
+    sink = TextSink()
+    try:
+        ev = AccessorEval(prog, iocls, limit=20000)
+        ev.module = do.module
+        ev._globals = {("iodata.utils", "angstrom"): 1.0}
+        ev.run_free(do, [sink, Rec(iocls, **f0)], {})
+        recs = [ln for ln in sink.text.split("\n") if ln.startswith(("ATOM", "HETATM"))]
+        if len(recs) != 3:
+            ctx.violate(rid, f"pdb.dump_one writes {len(recs)} atom records for three atoms", do, do.node, construct="pdb atom pair: record count")
+            return
+        back = []
+        for ln in recs:
+            lit = Rec(licls, filename="F", fh=iter([]), lineno=1, stack=[])
+            ev = AccessorEval(prog, licls, limit=2000)
+            ev.module = rp.module
+            ev._globals = {("iodata.utils", "angstrom"): 1.0}
+            back.append(ev.run_free(rp, [ln + "\n", lit], {}))
+    except Raised as exc:
+        ctx.violate(rid, f"PDB atom records: evaluation raises {exc.args[0]}", do, do.node, construct="pdb atom pair: raises")
+        return
+    except NotSymbolic as exc:
+        raise AnalysisError(f"pdb.dump_one / _parse_pdb_atom_line are outside the evaluation whitelist: {exc}") from exc
+    for i, res in enumerate(back):
+        atnum, atname, resname, chainid, resnum, atcoord, occ, bfac = res
+        got = dict(atnums=int(atnum), attypes=atname, restypes=resname, chainids=chainid, resnums=int(resnum), occupancies=float(occ), bfactors=float(bfac))
+        exp = dict(atnums=[6, 7, 8][i], **{k: v[i] for k, v in want.items()})
+        for k in exp:
+            if got[k] != exp[k]:
+                ctx.violate(rid, f"PDB atom record {i + 1}: `{k}` = {exp[k]!r} is written and read back as {got[k]!r}", do, do.node, construct=f"pdb atom pair: {k}")
+                return
+        if np.abs(np.asarray(atcoord, dtype=float) - coords[i]).max() > 1e-3:
+            ctx.violate(rid, f"PDB atom record {i + 1}: coordinates {coords[i].tolist()} come back as {np.asarray(atcoord, dtype=float).tolist()}", do, do.node, construct="pdb atom pair: coordinates")
+            return
+    ctx.ok(rid, "pdb: names, residues, chains, residue numbers (0 included), coordinates, occupancies and B-factors (0.0 included) of three model atoms written by dump_one come back from the record parser", f"{do.module.relpath}:{do.lineno}")
+
+
+def check_molfile_pairs(ctx, rid):
+    """The two small connection-table formats as whole pairs (like XYZ, the formats *are* their record loops: 17 / 30
+    lines of writer, 45 / 40 of reader): dump_one interpreted on a four-atom model molecule with four bonds of types
+    1, 4 (aromatic), 9 (amide) and 11 (not connected), load_one on the printed lines."""
+    from ..accessors import AccessorEval, Raised, Rec, TextSink
+    from ..symarr import NotSymbolic
+
+    prog = ctx.prog
+    licls = prog.cls("iodata.utils.LineIterator")
+    iocls = prog.cls("iodata.iodata.IOData")
+    coords = np.array([[0.5, 1.5, -2.5], [1.25, 0.0, 3.0], [2.0, 2.0, 2.0], [-1.0, -1.0, -1.0]])
+    bonds = np.array([[0, 1, 1], [1, 2, 9], [2, 3, 11], [0, 3, 4]])
+    charges = np.array([0.1, -0.2, 0.0, 0.3])
+    types_ = ["C.3", "N.am", "O.2", "H"]
+    for short in ("sdf", "mol2"):
+        do, lo = prog.format_op(short, "dump_one"), prog.format_op(short, "load_one")
+        f0 = {n: None for n in iocls.fields}
+        f0.update(title="T", atnums=np.array([6, 7, 8, 1]), atcoords=coords, bonds=bonds, atcharges={"mol2charges": charges}, atffparams={"attypes": np.array(types_)}, extra={})
+        sink = TextSink()
+        try:
+            ev = AccessorEval(prog, iocls, limit=40000)
+            ev.module = do.module
+            ev._globals = {("iodata.utils", "angstrom"): 1.0}
+            ev.run_free(do, [sink, Rec(iocls, **f0)], {})
+            lines = [ln + "\n" for ln in sink.text.split("\n")]
+            lit = Rec(licls, filename="F", fh=iter(lines), lineno=0, stack=[])
+            ev = AccessorEval(prog, licls, limit=40000)
+            ev.module = lo.module
+            ev._globals = {("iodata.utils", "angstrom"): 1.0}
+            res = ev.run_free(lo, [lit], {})
+        except Raised as exc:
+            ctx.violate(rid, f"{short}: the file dump_one writes for a model molecule makes load_one raise {exc.args[0]}", lo, lo.node, construct=f"{short} pair: raises")
+            continue
+        except NotSymbolic as exc:
+            raise AnalysisError(f"{short}.dump_one / load_one are outside the evaluation whitelist: {exc}") from exc
+        bad = None
+        num = lambda v: np.asarray(v, dtype=float)
+        if [int(x) for x in num(res.get("atnums")).ravel()] != [6, 7, 8, 1]:
+            bad = f"atomic numbers come back as {num(res.get('atnums')).tolist()}"
+        elif num(res.get("atcoords")).shape != coords.shape or np.abs(num(res["atcoords"]) - coords).max() > 1e-3:
+            bad = f"coordinates come back as {num(res.get('atcoords')).tolist()}"
+        elif res.get("bonds") is None or [[int(x) for x in row] for row in num(res["bonds"]).tolist()] != bonds.tolist():
+            got = None if res.get("bonds") is None else [[int(x) for x in row] for row in num(res["bonds"]).tolist()]
+            k = next((i for i, (a, b) in enumerate(zip(got or [], bonds.tolist())) if a != b), 0)
+            bad = f"bond {k + 1} (atoms {bonds[k, 0] + 1}-{bonds[k, 1] + 1}, type {bonds[k, 2]}) comes back as {got[k] if got and k < len(got) else got}"
+        elif short == "mol2" and (np.abs(num(res.get("atcharges", {}).get("mol2charges")) - charges).max() > 1e-4 or list(res.get("atffparams", {}).get("attypes", ())) != types_):
+            bad = f"charges / atom types come back as {res.get('atcharges')}, {res.get('atffparams')}"
+        if bad:
+            ctx.violate(rid, f"{short}: {bad}", do, do.node, construct=f"{short} pair: {bad}"[:160])
+        else:
+            ctx.ok(rid, f"{short}: four atoms and four bonds (types 1, 9, 11, 4)" + (", charges and atom types" if short == "mol2" else "") + " written by dump_one come back from load_one", f"{do.module.relpath}:{do.lineno}")
